@@ -185,6 +185,25 @@ func VerifC03() {
 			done, _ = vInvoke("container", "onNEP11Payment", user, 1, []byte("x"), nil)
 			vAssert(!vEffects(), "C03/container.onNEP11Payment-never-writes")
 			vRequire(done, "succeeds-with-the-required-witnesses")
+		// the same operations with a NON-EMPTY session token: the owner's key is then not bound through NeoFSID
+		// (whose own Alphabet check would otherwise stand in for a missing one here), and the container fee is 0
+		// in this fixture, so nothing but the contract's own check guards them
+		case 11:
+			done, _ = vInvoke("container", "put", b2, vBytes("sig", 64), vKey("user"), []byte{1, 2, 3})
+			check(done, sA, "C03/container.put-needs-the-Alphabet")
+		case 12:
+			done, _ = vInvoke("container", "putNamed", b2, vBytes("sig", 64), vKey("user"), []byte{1, 2, 3}, "nice", "")
+			check(done, sA, "C03/container.putNamed-needs-the-Alphabet")
+		case 13:
+			done, _ = vInvoke("container", "delete", id1, vBytes("sig", 64), []byte{1, 2, 3})
+			check(done, sA, "C03/container.delete-needs-the-Alphabet")
+		case 14:
+			eacl := append(append([]byte{1, 0, 2, 3, 4, 5}, id1...), 7, 7)
+			done, _ = vInvoke("container", "setEACL", eacl, vBytes("sig", 64), vKey("user"), []byte{1, 2, 3})
+			check(done, sA, "C03/container.setEACL-needs-the-Alphabet")
+		case 15:
+			done, _ = vInvoke("container", "put", b2, vBytes("sig", 64), vKey("user"), []byte{1, 2, 3}, true)
+			check(done, sA, "C03/container.put-with-meta-needs-the-Alphabet")
 		}
 	case 3: // neofsid, reputation, audit
 		vDeploy("neofsid", false)
